@@ -857,6 +857,223 @@ def sig(case, r):
     return ()
 
 
+# ---------------------------------------------------------------- histories: state left behind, object reuse
+
+class Probe:
+    """stands in for ctx while one step of a history is judged"""
+
+    def __init__(self):
+        self.failures = []
+
+    def fail(self, kind, case, what, **fields):
+        self.failures.append((kind, what))
+
+
+def set_msg_params(o, m):
+    """give an existing message object the parameters of m (same class)"""
+    from bacpypes.npdu import RoutingTableEntry
+    code = m[0]
+    if code == 0x00:
+        o.wirtnNetwork = m[1]
+    elif code == 0x01:
+        o.iartnNetworkList = list(m[1])
+    elif code == 0x02:
+        o.icbrtnNetwork, o.icbrtnPerformanceIndex = m[1], m[2]
+    elif code == 0x03:
+        o.rmtnRejectionReason, o.rmtnDNET = m[1], m[2]
+    elif code == 0x04:
+        o.rbtnNetworkList = list(m[1])
+    elif code == 0x05:
+        o.ratnNetworkList = list(m[1])
+    elif code in (0x06, 0x07):
+        tbl = [RoutingTableEntry(d, p, bytes.fromhex(i)) for d, p, i in m[1]]
+        if code == 0x06:
+            o.irtTable = tbl
+        else:
+            o.irtaTable = tbl
+    elif code == 0x08:
+        o.ectnDNET, o.ectnTerminationTime = m[1], m[2]
+    elif code == 0x09:
+        o.dctnDNET = m[1]
+    elif code == 0x13:
+        o.nniNet, o.nniFlag = m[1], m[2]
+
+
+def hist_encode(st, slots, probe):
+    """one `enc` / `menc` step of a history.  With a slot the SAME NPDU /
+    message object is used again (fields reassigned, payload patched in place
+    when its size allows).  Beyond the reply it checks that the produced PDU
+    and the source object do not share a buffer and that consuming the PDU
+    leaves the source able to produce the very same octets again."""
+    from bacpypes.npdu import NPDU
+    from bacpypes.pdu import PDU
+    op, slot = st["op"], st.get("slot")
+    try:
+        if op == "enc":
+            data = bytes.fromhex(st["data"])
+            src = slots.get(("enc", slot)) if slot is not None else None
+            if src is None:
+                src = NPDU(data)
+                if slot is not None:
+                    slots[("enc", slot)] = src
+            elif len(src.pduData) == len(data):
+                src.pduData[:] = data
+            else:
+                src.pduData = bytearray(data)
+            apply_header(src, st["h"])
+
+            def produce():
+                pdu = PDU()
+                src.encode(pdu)
+                return pdu, None
+        else:
+            m = st["m"]
+            src = slots.get(("menc", slot, m[0])) if slot is not None else None
+            if src is None:
+                src = mk_msg(m)
+                if slot is not None:
+                    slots[("menc", slot, m[0])] = src
+            else:
+                set_msg_params(src, m)
+            apply_header(src, st["h"], with_msg=False)
+
+            def produce():
+                n = NPDU()
+                src.encode(n)               # NPCI.update copy + body
+                pdu = PDU()
+                n.encode(pdu)
+                return pdu, n
+        pdu, mid = produce()
+        first = bytes(pdu.pduData).hex()
+        reply = {"r": "ok", "hex": first}
+        if op == "enc":
+            reply["ctl"] = src.npduControl
+    except Exception as e:
+        return err_reply(e, True)
+    # aliasing and repeatability
+    try:
+        shared = pdu.pduData is getattr(src, "pduData", None) or (mid is not None and (
+            mid.pduData is pdu.pduData or mid.pduData is src.pduData))
+        before = jmsg(src) if op == "menc" else bytes(src.pduData).hex()
+        del pdu.pduData[:]                      # what a decoder does to a PDU
+        if mid is not None:
+            mid.pduData += b"\xee"              # the intermediate NPDU is ours to change
+            mid.npduHopCount, mid.npduDADR, mid.npduVendorID = 1, None, 77
+        after = jmsg(src) if op == "menc" else bytes(src.pduData).hex()
+        again = bytes(produce()[0].pduData).hex()
+    except Exception as e:
+        again, shared, before, after = "raised %r" % (e,), False, None, None
+    if shared:
+        probe.fail("aliasing", None, "the produced PDU shares its buffer with the object it was encoded from")
+    elif before != after:
+        probe.fail("aliasing", None, "consuming / changing the produced PDUs changed the source object: %r -> %r" % (before, after))
+    elif again != first:
+        probe.fail("not-repeatable", None, "the same object encoded again gives %s, first time %s" % (again[:80], first[:80]))
+    return reply
+
+
+def exec_history(steps):
+    """run the steps in order in THIS process; [(stateless case, reply, [(kind, what)])]"""
+    slots, out = {}, []
+    for st in steps:
+        case = {k: v for k, v in st.items() if k != "slot"}
+        probe, reuse = Probe(), Probe()
+        reply = hist_encode(st, slots, reuse) if st["op"] in ("enc", "menc") else impl(case)
+        oracle(probe, case, reply)              # layout / round trip of ITS OWN fields first
+        if "prefix_of" in case and reply != {"r": "err", "k": "decoding"}:
+            probe.fail("prefix-accepted", case, "strict prefix of a valid header accepted: %r" % (reply,))
+        out.append((case, reply, probe.failures + reuse.failures))
+    return out
+
+
+def shrink_history(steps, i):
+    """smallest history found that still makes its last step fail"""
+    def fails(cand):
+        return bool(exec_history(cand)[-1][2])
+    for j in range(i - 1, max(-1, i - 10), -1):
+        if fails([steps[j], steps[i]]):
+            return [steps[j], steps[i]]
+    if fails([steps[i]]):
+        return [steps[i]]
+    if fails(steps[max(0, i - 10):i + 1]):
+        return steps[max(0, i - 10):i + 1]
+    return steps[:i + 1]
+
+
+def run_histories(ctx, stream, histories):
+    cases, replies = [], []
+    for steps in histories:
+        reported = False
+        for i, (case, reply, fails) in enumerate(exec_history(steps)):
+            cases.append(case)
+            replies.append(reply)
+            if fails and not reported:
+                reported = True
+                small = shrink_history(steps, i)
+                kind, what = fails[0]
+                ctx.fail(kind, {"op": "history", "steps": small},
+                         "last step (%s) of this history, run in one process: %s" % (case["op"], what), op="history")
+    if ctx.model_ok and cases:
+        b = core.Driver("drv_c08").ask(cases)
+        ctx.compare_stream(stream, cases, replies, b, sig=sig)
+    else:
+        for c in cases:
+            ctx.count(stream)
+    for h in histories[:2]:
+        ctx.sample({"stream": stream, "history": [short_case(c) for c in h[:4]]})
+
+
+def gen_histories(ctx, rng):
+    """[refused encode, valid encodes…], [refused decode, valid …], and random
+    mixes of every entry point with object reuse"""
+    H0 = mk_h(False, 0, None, None, None, None, None)
+    refused = gen_enc_outside(ctx, rng)
+    for m in gen_msgs_outside(ctx, rng):
+        refused.append({"op": "menc", "h": H0, "m": m})
+        refused.append({"op": "menc", "h": mk_h(True, 3, ["gb"], ["rs", 9, "0a0b"], 255, None, None), "m": m})
+        refused.append({"op": "benc", "m": m})
+    # failing message encodes whose HEADER cannot be written (body written first)
+    for m in ([0x00, 5], [0x01, [1, 2, 3]], [0x12]):
+        refused.append({"op": "menc", "h": mk_h(False, 0, ["rb", 3], None, None, None, None), "m": m})
+        refused.append({"op": "menc", "h": mk_h(False, 0, ["rs", 3, "00" * 256], None, 255, None, None), "m": m})
+    small = lambda c: len(core.canon(c)) < 400
+    valid = [c for c in gen_enc(ctx, rng) if in_domain(c["h"]) and small(c)]
+    vmsg = [c for c in gen_menc(ctx, rng) if c["op"] == "menc" and msg_in_domain(c["m"]) and small(c)
+            and in_domain(dict(c["h"], msg=c["m"][0]))]
+    frames = [(spec_header(c["h"])[0] + bytes.fromhex(c["data"])).hex() for c in rng.sample(valid, 60)]
+    frames += [(spec_header(dict(c["h"], msg=c["m"][0]))[0] + spec_body(c["m"])).hex() for c in rng.sample(vmsg, 60)]
+    bad_frames = ["", "01", "0208", "0108ffff0109", "0108000900", "0120000501", "0120ffff00", "018080", "01800100",
+                  "01800601000102", "0128000101"]
+    hs = []
+    for r in refused:
+        hs.append([r, rng.choice(valid), rng.choice(vmsg), rng.choice(valid)])
+        hs.append([r, rng.choice(vmsg), {"op": "dec", "hex": rng.choice(frames)}])
+        hs.append([r, r, dict(rng.choice(valid), slot=0), dict(rng.choice(valid), slot=0)])
+    for bf in bad_frames:
+        for op in ("dec", "mdec"):
+            hs.append([{"op": op, "hex": bf}, rng.choice(valid), {"op": op, "hex": rng.choice(frames)}, rng.choice(vmsg)])
+    n = 150 if ctx.quick else 3000
+    for _ in range(n):
+        steps = []
+        for _k in range(rng.choice([6, 10, 16])):
+            r = rng.random()
+            if r < .12:
+                st = dict(rng.choice(refused))
+            elif r < .45:
+                st = dict(rng.choice(valid))
+            elif r < .7:
+                st = dict(rng.choice(vmsg))
+            elif r < .85:
+                st = {"op": rng.choice(["dec", "mdec"]), "hex": rng.choice(frames)}
+            else:
+                st = {"op": rng.choice(["dec", "mdec"]), "hex": rng.choice(bad_frames)}
+            if st["op"] in ("enc", "menc") and rng.random() < .6:
+                st["slot"] = rng.randrange(2)
+            steps.append(st)
+        hs.append(steps)
+    return hs
+
+
 # ---------------------------------------------------------------- run
 
 def run_cases(ctx, stream, cases, want_impl=False):
@@ -903,10 +1120,12 @@ def run(ctx):
     rng = ctx.sub_rng("c08")
     cc = corpus_cases()
     if cc:
-        run_cases(ctx, "corpus", cc)
+        run_cases(ctx, "corpus", [c for c in cc if c["op"] != "history"])
+        run_histories(ctx, "corpus-history", [c["steps"] for c in cc if c["op"] == "history"])
     enc = gen_enc(ctx, rng)
     impl_enc = run_cases(ctx, "enc", enc)
     run_cases(ctx, "enc-outside", gen_enc_outside(ctx, rng))
+    run_histories(ctx, "history", gen_histories(ctx, ctx.sub_rng("c08-history")))
     run_cases(ctx, "dec", gen_dec(ctx, rng))
     run_cases(ctx, "dec-prefix", gen_prefixes(ctx, rng, enc))
     menc = gen_menc(ctx, rng)
@@ -936,6 +1155,13 @@ def search(ctx):
     (no model needed) — headers, prefixes, messages, mutations"""
     for rnd in range(3):
         rng = ctx.sub_rng("c08-search-%d" % rnd)
+        model_ok, ctx.model_ok = ctx.model_ok, False
+        try:
+            run_histories(ctx, "search-history", gen_histories(ctx, rng))
+        finally:
+            ctx.model_ok = model_ok
+        if ctx.failures:
+            return
         enc = gen_enc(ctx, rng)
         menc = gen_menc(ctx, rng)
         frames = []
@@ -963,4 +1189,7 @@ def replay(ctx, payload):
     case = rec.get("case")
     if not case or "op" not in case:
         raise core.Infra("nothing to replay")
+    if case["op"] == "history":
+        run_histories(ctx, "replay", [case["steps"]])
+        return
     run_cases(ctx, "replay", [case])
